@@ -35,6 +35,7 @@ func c05cAlphabet(full bool) []c05op {
 		{kind: "AddAfter", anchor: "a", id: "n"}, {kind: "AddBefore", anchor: "a", id: "n"},
 		{kind: "AddAfter", anchor: "b", id: "n"},
 		{kind: "Filter", pred: "id=a"}, {kind: "Filter", pred: "none"}, {kind: "Filter", pred: "all"},
+		{kind: "Iterate"}, // an observer: one walk shows the list as it was at some instant
 	}
 	if full {
 		ops = append(ops, c05op{kind: "AddBefore", anchor: "b", id: "n"}, c05op{kind: "AddAfter", anchor: "z", id: "n"},
@@ -78,6 +79,8 @@ func refRemoved(l []refTask, o c05op) string {
 		if len(l) > 0 {
 			return f(l[len(l)-1])
 		}
+	case "Iterate":
+		return refStr(l)
 	}
 	return ""
 }
@@ -118,6 +121,8 @@ func TestVerifC05c(t *testing.T) {
 	alpha := c05cAlphabet(vres.Thorough())
 	r.Bound("concurrent_op_alphabet", len(alpha))
 	r.Bound("threads", vres.Pick(2, 3))
+	c05IterateYield = func() { vrt.Yield("iterate-element") }
+	defer func() { c05IterateYield = nil }()
 	var ord int64
 	explore := func(name string, body func(x *vrt.Exec), check func(x *vrt.Exec) (string, string, string)) {
 		ex := &vrt.Explorer{Opts: vrt.Options{Bound: bound, MaxSteps: 20000}, Deadline: r.Deadline()}
